@@ -139,8 +139,13 @@ class Gen:
         return ('U', self.pick(NAMES), self.pick(IDS), imp, ref,
                 tuple(self.unitdef() for _ in range(self.count())))
 
+    pool = ()       # units of the model being generated: its variables often refer to them
+
     def variable(self):
-        u = self.units(bare=0.6) if self.rng.random() < 0.7 else None
+        if self.pool and self.rng.random() < 0.5:
+            u = self.pick(self.pool)
+        else:
+            u = self.units(bare=0.45) if self.rng.random() < 0.7 else None
         return ('V', self.pick(NAMES), self.pick(IDS), u, self.pick(INITS), self.pick(IFACES))
 
     def reset(self, vars_=()):
@@ -174,11 +179,13 @@ class Gen:
         depth = self.maxdepth if depth is None else depth
         us = tuple(self.units() for _ in range(self.count()))
         n = self.count()
+        self.pool = us
         if self.rng.random() < 0.3 and n >= 2:
             k0 = self.component(depth)
             cs = tuple(k0 if self.rng.random() < 0.6 else self.component(depth) for _ in range(n))
         else:
             cs = tuple(self.component(depth) for _ in range(n))
+        self.pool = ()
         return ('M', self.pick(NAMES), self.pick(IDS), self.pick(ENC), us, cs)
 
     def entity(self, kind):
@@ -377,17 +384,30 @@ def fnv1a(s):
 
 # ---------------------------------------------------------------------- API scripts
 
-def emit(b, t, rng, shared=None, rec=None, path=()):
+def emit(b, t, rng, shared=None, rec=None, path=(), pool=None):
     """append the commands that build t through the public API; returns the slot.
     rec (dict): path -> (subtree, slot) for every entity built on the way (paths are tuples such as
-    ('comp', 0, 'var', 1, 'units'); () is t itself)"""
+    ('comp', 0, 'var', 1, 'units'); () is t itself).
+    pool: units tree -> slot of the units objects owned by the model being built.
+
+    The trees carry the units of a variable inline (equality only looks at their content); the OBJECT the variable
+    holds is drawn here from every ownership situation: created by name (Variable::setUnits(name)), the object owned by
+    the SAME model as the variable, an object owned by ANOTHER model, a parent-less user-built object, and an object
+    that another variable (of this or of another root of the case) already holds.  Counted in b.own."""
+    own = b.__dict__.setdefault("own", {})
+    ucache = b.__dict__.setdefault("ucache", {})
+
     def note(s):
         if rec is not None:
             rec[path] = (t, s)
         return s
 
     def sub(x, *step, **kw):
+        kw.setdefault("pool", pool)
         return emit(b, x, rng, rec=rec, path=path + tuple(step), **kw)
+
+    def count(k):
+        own[k] = own.get(k, 0) + 1
     k = t[0]
     if k == 'I':
         s = b.importsource()
@@ -410,10 +430,27 @@ def emit(b, t, rng, shared=None, rec=None, path=()):
         b.cmd("setid", s, S(t[2]))
         u = t[3]
         if u is not None:
-            if u == ('U', u[1], "", None, "", ()) and rng.random() < 0.7:
-                b.cmd("setunits_n", s, S(u[1]))
+            r = rng.random()
+            bare = u == ('U', u[1], "", None, "", ())
+            if pool and u in pool and r < 0.65:
+                b.cmd("setunits_p", s, pool[u])                     # the object owned by the variable's own model
+                count("same_model")
+            elif u in ucache and r < 0.8:
+                b.cmd("setunits_p", s, rng.choice(ucache[u]))        # an object some other variable already holds
+                count("shared_object")
+            elif bare and rng.random() < 0.5:
+                b.cmd("setunits_n", s, S(u[1]))                     # Variable::setUnits(name)
+                count("by_name")
             else:
-                b.cmd("setunits_p", s, sub(u, 'units'))
+                us = sub(u, 'units')
+                if rng.random() < 0.5:
+                    aux = b.model("other")                          # owned by ANOTHER model (kept alive in its slot)
+                    b.cmd("addunits", aux, us)
+                    count("other_model")
+                else:
+                    count("parentless")
+                ucache.setdefault(u, []).append(us)
+                b.cmd("setunits_p", s, us)
         b.cmd("setinitialvalue_s", s, S(t[4]))
         if t[5] != "" or rng.random() < 0.5:
             b.cmd("setinterfacetype_s", s, S(t[5]))
@@ -458,10 +495,14 @@ def emit(b, t, rng, shared=None, rec=None, path=()):
         s = b.model(t[1])
         b.cmd("setid", s, S(t[2]))
         b.cmd("setencapsulationid", s, S(t[3]))
+        mine = {}
         for n, u in enumerate(t[4]):
-            b.cmd("addunits", s, sub(u, 'units', n))
+            us = sub(u, 'units', n)
+            b.cmd("addunits", s, us)
+            mine.setdefault(u, us)
+            ucache.setdefault(u, []).append(us)      # variables of OTHER roots may hold this model's units too
         for n, c in enumerate(t[5]):
-            b.cmd("addcomponent", s, sub(c, 'comp', n))
+            b.cmd("addcomponent", s, sub(c, 'comp', n, pool=mine))
         return note(s)
     raise ValueError(k)
 
